@@ -35,6 +35,13 @@ Theorem C16_return_after_own_ack : forall (S : Type) stmts ls s s', Forall no_al
 Proof. exact return_after_own_ack. Qed.
 Print Assumptions C16_return_after_own_ack.
 
+(* READINGS: ... so a reading requested by the statement is available when write() returns: every line still on its
+   way to the reader was emitted by the device after the terminator of this statement (the reader handles lines in order
+   and parses a line before setting the acknowledgement) *)
+Theorem C16_readings_available : forall (S : Type) stmts ls s s', Forall no_alarm ls -> run S ls (init S stmts 0) = Some s ->
+  step S Return s = Some s' -> Forall (fun k => (Datatypes.S (length (outcomes S s)) <= k)%nat) (stamps S s).
+Proof. exact readings_available. Qed.
+
 (* ERRORS SURFACE: an error / alarm / !! line handled by the reader makes the next write() that completes raise *)
 Theorem C16_error_surfaces : forall (S : Type) s1 s2 rest ls s3 s4,
   from_dev S s1 = LErr :: rest -> step S Read s1 = Some s2 ->
